@@ -258,6 +258,10 @@ pub fn gen_private(prop: &str, seed: u64) -> RunDesc {
     if let Some(s) = cfg.stall.as_mut() {
         s.victim = rng.below(nt as u64) as u32;
     }
+    // fault: clock jump to a few ticks before the 63-bit epoch counter wraps
+    if Rng::new(seed ^ 0x3A9).chance(0.12) {
+        cfg.start_epoch = (1u64 << 63) - 1 - rng.below(5);
+    }
     RunDesc { prop: prop.to_string(), family: "ebr-private".into(), seed, cfg, threads, params: J::Null, schedule: None, buggify_script: None }
 }
 
@@ -358,12 +362,16 @@ pub fn run_private(desc: &RunDesc) -> ! {
         let progs = progs.clone();
         specs.push(ThreadSpec { phase: t.phase, stack: 1 << 20, name: "private", body: Arc::new(move |tid| body(tid, &progs[i])) });
     }
+    let near_wrap = desc.cfg.start_epoch > (1 << 62);
     // last: the final reference to the collector goes away, with whatever is still queued
     specs.push(ThreadSpec {
         phase: 9,
         stack: 1 << 20,
         name: "drop-collector",
         body: Arc::new(move |_tid| {
+            if near_wrap {
+                sim().fault("clock_near_wrap");
+            }
             let pending = shadow().closures.iter().filter(|c| c.executed == 0).count();
             crate::runner::set_extra("fam", J::obj().set("closures_pending_at_collector_drop", pending).set("closures", shadow().closures.len()));
             if pending > 0 {
